@@ -329,6 +329,7 @@ class ChangeScenario(Scenario):
                     p.stop()
                     env.memo['pipeline'] = None
                     env.memo['stopping'] = p.task
+                    env.memo['stopping_opid'] = p.opid
                 self.start_when_stopped(env)
             elif action == 'stop':
                 p = env.memo.get('pipeline')
@@ -336,6 +337,7 @@ class ChangeScenario(Scenario):
                     p.stop()
                     env.memo['pipeline'] = None
                     env.memo['stopping'] = p.task
+                    env.memo['stopping_opid'] = p.opid
             elif action == 'start':
                 self.start_when_stopped(env)
             elif action == 'kill':
@@ -384,6 +386,14 @@ class ChangeScenario(Scenario):
         p = env.memo.get('pipeline')
         if p is not None:
             env.kill(p.opid)
+        else:
+            # no process is up: the previous one may still be in its graceful exit (with its successor waiting for that): THAT one is
+            # killed, and the successor that was waiting is the process started now - never two live processes
+            old = env.memo.get('stopping')
+            if old is not None and not old.done() and env.memo.get('stopping_opid'):
+                env.kill(env.memo['stopping_opid'])
+            env.memo['stopping'] = None
+            env.memo.pop('starting', None)
         env.count('kills')
         self.start_operator(env)
 
